@@ -323,7 +323,7 @@ fn transform_modifiers(modifiers: BTreeSet<Atom>, quote_prop: bool) -> Option<Ex
                 .into_iter()
                 .map(|modifier| {
                     PropOrSpread::Prop(Box::new(Prop::KeyValue(KeyValueProp {
-                        key: if quote_prop {
+                        key: if quote_prop || !is_simple_ident(&modifier) {
                             PropName::Str(quote_str!(modifier))
                         } else {
                             PropName::Ident(quote_ident!(modifier))
@@ -337,6 +337,16 @@ fn transform_modifiers(modifiers: BTreeSet<Atom>, quote_prop: bool) -> Option<Ex
                 .collect(),
         }))
     }
+}
+
+/// Whether the modifier can be printed as an unquoted property key.
+fn is_simple_ident(name: &str) -> bool {
+    let mut bytes = name.bytes();
+    bytes
+        .next()
+        .map(|first| first.is_ascii_alphabetic() || first == b'_' || first == b'$')
+        .unwrap_or_default()
+        && bytes.all(|byte| byte.is_ascii_alphanumeric() || byte == b'_' || byte == b'$')
 }
 
 fn parse_v_slots_directive(jsx_attr: &JSXAttr) -> Directive {
